@@ -1,6 +1,7 @@
 package ledger
 
 import (
+	"crypto/sha256"
 	"fmt"
 	"net"
 	"runtime"
@@ -8,6 +9,7 @@ import (
 
 	"github.com/nspcc-dev/neo-go/pkg/core/block"
 	"github.com/nspcc-dev/neo-go/pkg/core/mpt"
+	"github.com/nspcc-dev/neo-go/pkg/core/transaction"
 	nio "github.com/nspcc-dev/neo-go/pkg/io"
 	"github.com/nspcc-dev/neo-go/pkg/network"
 	"github.com/nspcc-dev/neo-go/pkg/network/capability"
@@ -103,6 +105,30 @@ func (s *netSim) chatterMessages() (kinds []string, raws [][]byte) {
 		raws = append(raws, b1, b2)
 	}
 	twice(network.CMDMPTData, &payload.MPTData{Nodes: big})
+	// payloads above the compression threshold that no compressor shrinks (hashes, signatures: here a hash chain)
+	noise := func(n int, salt byte) []byte {
+		var out []byte
+		x := sha256.Sum256([]byte{salt, byte(h)})
+		for len(out) < n {
+			x = sha256.Sum256(x[:])
+			out = append(out, x[:]...)
+		}
+		return out[:n]
+	}
+	var rnd [][]byte
+	for i := 0; i < 8; i++ {
+		rnd = append(rnd, noise(200, byte(i)))
+	}
+	twice(network.CMDMPTData, &payload.MPTData{Nodes: rnd})
+	var many []util.Uint256
+	for i := 0; i < 64; i++ {
+		var u util.Uint256
+		copy(u[:], noise(32, byte(100+i)))
+		many = append(many, u)
+	}
+	twice(network.CMDInv, payload.NewInventory(payload.TXType, many[:min(len(many), payload.MaxHashesCount)]))
+	twice(network.CMDExtensible, &payload.Extensible{Category: "verifNoise", ValidBlockStart: 0, ValidBlockEnd: h + 10, Sender: util.Uint160{1},
+		Data: noise(1500, 200), Witness: transaction.Witness{InvocationScript: noise(66, 201), VerificationScript: noise(40, 202)}})
 	for i := h; i > 0 && i+8 > h; i-- {
 		if b, err := bc.GetBlock(bc.GetHeaderHash(i)); err == nil && len(b.Transactions) > 0 {
 			for _, tx := range b.Transactions {
